@@ -482,6 +482,11 @@ def _sq_div(a, b):
     return SV(num, _or(x.nan, y.nan), d=_dmul(x.d, y.v), nn=True, dp=x.dp and y.dp)
 
 
+def _side_unless_nan(cond, *nans):
+    fl = [n for n in nans if n is not None and not z3.is_false(n)]
+    return z3.Or(cond, *fl) if fl else cond
+
+
 # rounding abstraction (opt-in per harness): when set, real/real division by a symbolic divisor returns whatever the hook
 # returns (e.g. a fresh symbol bounded only by what survives rounding) instead of the exact quotient
 DIV_HOOK = None
@@ -561,7 +566,8 @@ class SV:
         if DIV_HOOK is not None and not z3.is_rational_value(z3.simplify(o.z)):
             return DIV_HOOK(self, o)
         if Explorer.cur is not None:
-            Explorer.cur.add_side(o.v != 0)
+            # a NaN operand makes the quotient NaN whatever the divisor's stored value is: no condition on it then
+            Explorer.cur.add_side(_side_unless_nan(o.v != 0, self.nan, o.nan))
         num = self.v if o.d is None else self.v * o.d
         den = _dmul(self.d, o.v)
         sn = z3.simplify(den)
@@ -850,7 +856,7 @@ class SC:
         # (a/ad) / (b/bd) = a*conj(b)*bd / (ad*|b|^2)
         n2 = o.re * o.re + o.im * o.im
         if Explorer.cur is not None:
-            Explorer.cur.add_side(n2 != 0)
+            Explorer.cur.add_side(_side_unless_nan(n2 != 0, self.nan, o.nan))
         re = self.re * o.re + self.im * o.im
         im = self.im * o.re - self.re * o.im
         if o.d is not None:
